@@ -303,9 +303,12 @@ impl<'a> Gen<'a> {
                 }
             }
         };
-        let reply = match (&msg, reply) {
-            // the WasmMsg receiver only exists for wasm messages; fine, these all are
-            (_, r) => r,
+        // now and then the sub-message is not a call into a contract at all
+        let msg = if !want_inst && self.rng.chance(1, 10) {
+            let to = self.rng.pick(self.accounts).clone();
+            Msg::Bank { to, amount: vec![sylvia::cw_std::Coin::new(self.rng.below(3) as u128, "ucoin")] }
+        } else {
+            msg
         };
         Send {
             msg,
@@ -350,7 +353,7 @@ impl Profile for F3 {
                 msg: Doc::json(&Value::Object(args.clone())),
                 label: format!("c{i}"),
                 admin: Some(addrs[3].clone()),
-                funds: vec![],
+                funds: if rng.chance(1, 2) { vec![sylvia::cw_std::Coin::new(rng.range(1, 40) as u128, "ucoin")] } else { vec![] },
                 salt: None,
                 intent: Some(Intent { hid: h.id(), args: Value::Object(args), cid: String::new() }),
             });
